@@ -1595,3 +1595,38 @@ Proof.
   cbn [map all2]. rewrite IH. unfold same_object, o_of, norm_o. cbn [mo_name mo_methods mo_signals mo_props].
   now rewrite String.eqb_refl, same_methods, !same_signals.
 Qed.
+
+(* ---------- sequences of conversions in one process ----------
+   The model of a conversion is a function of the package alone, so the model of a process that
+   converts one package after the other is the list of the individual conversions.  Whatever was
+   converted before and after (packages with colliding struct names, any other weak input,
+   invalid signatures: [before] and [after] are arbitrary), a package that meets the hypotheses of
+   the file theorem comes back.  The harness runs such sequences on the implementation in one fresh
+   process each and compares every step with [convert] of that step. *)
+Definition convert (x : string * list mobject) : option (string * idl_result) :=
+  match gen_idl (fst x) (snd x) with
+  | Some text => Some (text, parse_idl text)
+  | None => None
+  end.
+Definition convert_seq (l : list (string * list mobject)) : list (option (string * idl_result)) := map convert l.
+
+Theorem idl_sequence_roundtrip : forall (before after : list (string * list mobject)) E pkg P,
+  package_ok E P -> env_safe E -> is_pkg_name pkg = true ->
+  exists text, nth_error (convert_seq (before ++ (pkg, map o_of P) :: after)) (List.length before)
+               = Some (Some (text, IOk (map norm_o P))).
+Proof.
+  intros before after E pkg P HP HE Hpkg.
+  destruct (idl_file_roundtrip E pkg P HP HE Hpkg) as (text & Hg & Hp).
+  exists text. unfold convert_seq. rewrite map_app, nth_error_app2 by (rewrite map_length; apply le_n).
+  rewrite map_length, Nat.sub_diag. cbn [map nth_error]. unfold convert. cbn [fst snd]. now rewrite Hg, Hp.
+Qed.
+
+(* step by step in the decidable form: every step whose package round-trips alone round-trips in the sequence *)
+Definition seq_roundtrip_ok (l : list (string * list mobject)) : list bool :=
+  map (fun x => roundtrip_ok (fst x) (snd x)) l.
+Lemma seq_roundtrip_nth : forall before x after,
+  nth_error (seq_roundtrip_ok (before ++ x :: after)) (List.length before) = Some (roundtrip_ok (fst x) (snd x)).
+Proof.
+  intros. unfold seq_roundtrip_ok. rewrite map_app, nth_error_app2 by (rewrite map_length; apply le_n).
+  now rewrite map_length, Nat.sub_diag.
+Qed.
